@@ -35,6 +35,15 @@ var c06Focus = []string{
 	// the random-number functions, projected onto deterministic results
 	`$sum($shuffle(arr)) + n`, `$random() < 2 ? a : n`, `$count($shuffle(objs))`, `$sort($shuffle(arr))`, `$shuffle(arr)^($)`, `$floor($random()) + n`,
 	`$merge([b, {"n": n}])`, `$each(b, function($v, $k){$k & "=" & $v})`, `$type(a) & $type(n)`, `**.c`, `b.*`,
+	// the registered variable (one Go value shared by all evaluations in configurations A, D, G)
+	`$append($reg.list, n)`, `$append($reg.list, arr)`, `$sort($reg.list)`, `$reg.list^(>$)`, `$reverse($reg.list)`, `$reg ~> |$|{"n": n}|`, `$reg.list[0] + n`, `$zip($reg.list, arr)`,
+	`$distinct($reg.list)`, `$sum($shuffle($reg.list)) + n`, `$merge([$reg, b])`, `$reg.list.($ * n)`, `$map($reg.list, function($v){$v + n})`, `$reduce($reg.list, $append, arr)`, `$append(objs, $reg)`,
+}
+
+// spare returns the array with unused capacity behind it, as the JSON decoder
+// leaves arrays: an evaluation that appends in place would write there.
+func spare(a []interface{}) []interface{} {
+	return append(make([]interface{}, 0, len(a)+5), a...)
 }
 
 func c06Input(g int) interface{} {
@@ -42,8 +51,8 @@ func c06Input(g int) interface{} {
 		"a":    fmt.Sprintf("g%dq-zebra-%d", g, g*7),
 		"n":    float64(g + 2),
 		"b":    map[string]interface{}{"c": fmt.Sprintf("low%dzed", g)},
-		"arr":  []interface{}{float64(3 + g), 1.0, float64(2 * g)},
-		"objs": []interface{}{map[string]interface{}{"k": "x", "v": float64(g)}, map[string]interface{}{"k": "y", "v": 5.0}, map[string]interface{}{"k": "x", "v": 7.0}},
+		"arr":  spare([]interface{}{float64(3 + g), 1.0, float64(2 * g)}),
+		"objs": spare([]interface{}{map[string]interface{}{"k": "x", "v": float64(g)}, map[string]interface{}{"k": "y", "v": 5.0}, map[string]interface{}{"k": "x", "v": 7.0}}),
 	}
 }
 
@@ -87,7 +96,7 @@ type c06Round struct {
 
 func c06Plan(i int64, tier string, seed uint64) c06Round {
 	r := prng.New(seed, 0xC06, uint64(i))
-	cfgs := []string{"A", "B", "E", "F", "G"}
+	cfgs := []string{"A", "B", "D", "E", "F", "G"}
 	gs := []int{8}
 	if tier == "thorough" {
 		cfgs = []string{"A", "B", "C", "D", "E", "F", "G"}
@@ -118,7 +127,7 @@ func init() {
 	fw.Register(&fw.Prop{
 		ID: "C06", Title: "Concurrent evaluations are isolated and race-free", Race: true, Workers: 4, GoMaxProcs: 8,
 		Rule: "each case is one round: G goroutines (quick: 8; thorough: 2,4,8,16,32) each evaluate 6 programs (context-defaulting built-ins under paths, nested contexts, partials, chains, lambdas, higher-order functions, sorts, groupings, transforms, regexes, and generated deterministic programs) some hundred times on goroutine-specific inputs whose correct results differ. " +
-			"Configurations: A one shared Expr per program; B one Expr per goroutine; C Compile inside the loop; D all goroutines share one input document and one registered variable; E package-level RegisterVars/RegisterExts with unique values concurrent with Compile, the compiled Expr then evaluated for $name; F function values (typed and untyped lambdas, partials, a composition, a regex, a transform) returned by one evaluation and registered under a different name in each goroutine's expressions, all goroutines calling the same function objects (outcomes compared including error texts, which carry the calling name); G as A with a registered variable, but the shared Exprs are freshly compiled so that their very first evaluations run concurrently. " +
+			"Configurations: A one shared Expr per program, with a registered variable (an object holding an array with spare capacity, as decoded JSON has) read by part of the programs; B one Expr per goroutine; C Compile inside the loop; D all goroutines share one input document and one registered variable; E package-level RegisterVars/RegisterExts with unique values concurrent with Compile, the compiled Expr then evaluated for $name; F function values (typed and untyped lambdas, partials, a composition, a regex, a transform) returned by one evaluation and registered under a different name in each goroutine's expressions, all goroutines calling the same function objects (outcomes compared including error texts, which carry the calling name); G as A, but the shared Exprs are freshly compiled so that their very first evaluations run concurrently. " +
 			"Delay injection at the verif yield points (after the call context is set, on entry to a Go callable): none / 5% / 50% Gosched or 1..40 us spin. Monitors: (1) Go race detector reports with a repository frame; (2) every goroutine's outcome equals the outcome of the same (program, input) evaluated alone before the goroutines start; " +
 			"(3) the recorded Register/Compile history is checked for linearizability per name with porcupine (register model), plus the snapshot invariant that two names registered in one call are always seen together. non-trivial = every round; distinct by round parameters",
 		Assumptions: []string{"Expr-level Register* is not run concurrently with Eval of the same Expr (not promised by the property)", "a porcupine timeout (60 s) is inconclusive, not a violation"},
@@ -163,7 +172,7 @@ func c06Run(i int64, tier string, seed uint64, r *fw.Rec) {
 			inputs[g] = c06Input(g)
 		}
 	}
-	reg := map[string]interface{}{"list": []interface{}{3.0, 1.0, 2.0}, "k": "x"}
+	reg := map[string]interface{}{"list": spare([]interface{}{3.0, 1.0, 2.0}), "k": "x"}
 	exprs := make([]*jsonata.Expr, len(rd.progs))
 	for k, p := range rd.progs {
 		e, o := obs.Compile(p)
@@ -174,7 +183,7 @@ func c06Run(i int64, tier string, seed uint64, r *fw.Rec) {
 			}
 			continue // a generated program that does not compile is skipped
 		}
-		if rd.cfg == "D" || rd.cfg == "G" {
+		if rd.cfg == "A" || rd.cfg == "D" || rd.cfg == "G" {
 			e.RegisterVars(map[string]interface{}{"reg": reg})
 		}
 		exprs[k] = e
